@@ -263,7 +263,7 @@ func runC14(r *Runner) string {
 	for _, n := range c14Sizes {
 		base := c14Mnemonic(r.bytesN(n))
 		positions := []int{len(base) - 1} // the word that carries the checksum bits
-		for i := 0; i < r.N(1, 5); i++ {
+		for i := 0; i < r.N(2, 5); i++ {
 			positions = append(positions, r.rng.Intn(len(base)))
 		}
 		if r.thorough {
@@ -375,7 +375,7 @@ func runC14(r *Runner) string {
 	for _, n := range []int{1, 127, 128, 129, 256, 1000} {
 		seed([]string{strings.Repeat("k", n)}, []byte("p"), "unchecked mnemonic")
 	}
-	for nSeed < r.N(260, 4000) {
+	for nSeed < r.N(400, 4000) {
 		p := passes[r.rng.Intn(len(passes))]
 		if r.rng.Intn(2) == 0 {
 			p = r.bytesN(r.rng.Intn(40))
